@@ -1,5 +1,53 @@
 import Cellml.Basic.Sexp
-/-! Channel C09 of the model driver (stub: not built yet). -/
+import Cellml.C09.Model
+
+/-! Channel C09:
+    `(C09 (keys "k0" "k1" …) (eqs (lhs (r…) (r'…)) (lhs (r…) (r'…) state free) …) (queries ((v…) recurse strip) …))`
+    → `((ok v…) | (err name) …)` — one reply item per query. Nodes are numbered by position in `keys`. -/
 namespace C09
-def handle (_args : List Sexp) : Sexp := .atom "not-implemented"
+open Sexp
+
+def nats? (e : Sexp) : Option (List Nat) := do
+  let xs ← listOf? e
+  xs.mapM nat?
+
+def eqn? : Sexp → Option Eqn
+  | .list [l, r, r'] => do
+      pure { lhs := ← nat? l, refs := ← nats? r, refsNum := ← nats? r' }
+  | .list [l, r, r', s, f] => do
+      pure { lhs := ← nat? l, refs := ← nats? r, refsNum := ← nats? r', ode := some (← nat? s, ← nat? f) }
+  | _ => none
+
+def errName : Err → String
+  | .assertion => "assertion"
+  | .badRef => "badRef"
+  | .notInGraph => "notInGraph"
+  | .unfeasible => "unfeasible"
+
+def bool? : Sexp → Option Bool
+  | .atom "true" => some true
+  | .atom "false" => some false
+  | _ => none
+
+def query (key : Node → String) (eqs : List Eqn) : Sexp → Sexp
+  | .list [vs, r, s] =>
+      match nats? vs, bool? r, bool? s with
+      | some vars, some recurse, some strip =>
+          match getEquationsFor key eqs vars recurse strip with
+          | .ok l => .list (.atom "ok" :: l.map ofNat)
+          | .error x => .list [.atom "err", .atom (errName x)]
+      | _, _, _ => .atom "bad-query"
+  | _ => .atom "bad-query"
+
+def handle (args : List Sexp) : Sexp :=
+  match args with
+  | [.list (.atom "keys" :: ks), .list (.atom "eqs" :: es), .list (.atom "queries" :: qs)] =>
+      match ks.mapM atomOf?, es.mapM eqn? with
+      | some keys, some eqs =>
+          let karr := keys.toArray
+          let key : Node → String := fun v => karr.getD v ""
+          .list (qs.map (query key eqs))
+      | _, _ => .atom "bad-request"
+  | _ => .atom "bad-request"
+
 end C09
